@@ -86,6 +86,7 @@ Inductive lcase :=
 | LParseTermC (fmt : N) (input : str) (impl : lres lterm)
 | LDictC (fmt : N) (which : N) (impl : list (str * str))
 | LVocabC (fmt : N) (v : lnarsese) (impl : bool)   (* the domain of C02 as the harness restates it *)
+| LUnambC (fmt : N) (v : lnarsese) (k5 : bool)     (* the harness's known class K5 = failure of unamb_top *)
 | LWhitespaceC.      (* the 25 White_Space points = std's char::is_whitespace, all scalars *)
 
 Definition lcase_check (c : lcase) : bool :=
@@ -95,6 +96,7 @@ Definition lcase_check (c : lcase) : bool :=
   | LParseTermC f input impl => lres_eqb lterm_eqb (xlex_parse_term (lfmt_of f) input) impl
   | LDictC f which impl => llist_eqb pair_eqb (dict_order (lfmt_of f) which) impl
   | LVocabC f v impl => Bool.eqb (vocab_ok (lfmt_of f) lex_is_alnum_std v) impl
+  | LUnambC f v k5 => Bool.eqb (negb (unamb_top_b (lfmt_of f) v)) k5
   | LWhitespaceC => str_eqb (expand_ranges whitespace_ranges) white_space_points
   end.
 
